@@ -71,7 +71,7 @@ def table : List (Nat × Row) :=
 /-- working directories the executed table starts the server from besides the source tree
     (`harness/c19_trace.py`): the document root, a directory below it, a sibling whose path
     starts with the root's path (`<root>-staging`), a directory below such a sibling -/
-def nStartDirs : Nat := 4
+def nStartDirs : Nat := 7
 
 /-- start-up does not depend on where the server is started from: for every chroot configuration
     (without TLS) the fault-free row, once per start directory -/
